@@ -19,6 +19,12 @@ module DAG, any pass behaviour and any history of earlier calls:
   `generator_pending_untouched`  (GenRun.lean) a generator call whose body raised changes nothing in the cache — no
                              entry, no pending mark — so the very same call can be run again and, if its body now
                              returns, is cached from then on; calls never leave a pending mark behind.
+* `nested_calls_leave_no_mark`, `nested_never_spuriously_circular`, `nested_failed_call_runs_again`,
+  `nested_success_is_cached`   the same for generators that call generators (event trees `Ev`: every body makes nested
+                             calls, catches their failures or lets them propagate, then returns or raises): after any
+                             history nothing is pending; "circular dependency" is reported only for an event tree that
+                             really nests a call inside the same call; a call that did not return is run again; one that
+                             did is cached for good.
 The exception *texts* and the real cache are decided
 by the correspondence (harness/props/c08.py): every (pass position, module) failure point, injected
 three ways, followed by every continuation, against a fresh process.
@@ -26,6 +32,7 @@ three ways, followed by every continuation, against a fresh process.
 import Hdl21Model.Lemmas.Runner
 import Hdl21Model.Props.C07
 import Hdl21Model.GenRun
+import Hdl21Model.Lemmas.GenRun
 namespace Hdl21.Props.C08
 open Hdl21.Runner Hdl21.Props.C07
 
@@ -130,6 +137,74 @@ theorem generator_pending_untouched (s : Cache) (calls : List (Call × Outcome))
     exact ⟨rfl, rfl⟩
 
 example : (runAll Cache.init [(7, .raises), (7, .ok 3), (7, .raises)]) = ⟨[(7, 3)], [], []⟩ := by decide
+
+/-! ### generators that call generators (bodies that catch a nested failure, or let it propagate) -/
+
+theorem runEvs_frame (s : Cache) (evs : List Ev) : (runEvs s evs).pending = s.pending ∧ (runEvs s evs).stack = s.stack := by
+  induction evs generalizing s with
+  | nil => exact ⟨rfl, rfl⟩
+  | cons e r ih =>
+    simp only [runEvs]
+    exact ⟨(ih _).1.trans (runEv_frame s e).1, (ih _).2.trans (runEv_frame s e).2⟩
+
+/-- Whatever calls were made before — failing at any depth, caught or not — nothing is left pending and the call stack is empty. -/
+theorem nested_calls_leave_no_mark (evs : List Ev) :
+    (runEvs Cache.init evs).pending = [] ∧ (runEvs Cache.init evs).stack = [] :=
+  runEvs_frame Cache.init evs
+
+/-- … so a later call is answered "circular dependency" only when it asks for it: when its own bodies, this time, call a
+    generator from inside a call with the same parameters.  A repeated call never gets that answer because of what failed before. -/
+theorem nested_never_spuriously_circular (evs : List Ev) (e : Ev)
+    (h : (runEv (runEvs Cache.init evs) e).2 = .circular) : cyc [] e = true := by
+  have := runEv_circular (runEvs Cache.init evs) e h
+  rwa [(nested_calls_leave_no_mark evs).1] at this
+
+/-- A call that did not return a module — its own body failed, or a failure below it that it did not catch — is not cached,
+    and is simply run again. -/
+theorem nested_failed_call_runs_again (s : Cache) (c : Call) (nested : List Ev) (catches : Bool) (out : Outcome)
+    (hp : c ∉ s.pending) (h : ∀ m, (runEv s (.call c nested catches out)).2 ≠ .module m) (catches' : Bool) (m : Mod) :
+    (runEv (runEv s (.call c nested catches out)).1 (.call c [] catches' (.ok m))).2 = .module m := by
+  have hfr := runEv_frame s (.call c nested catches out)
+  have hnone : lookup c (runEv s (.call c nested catches out)).1.done = none := by
+    unfold runEv at h ⊢
+    cases hl : lookup c s.done with
+    | some m' => simp [hl] at h
+    | none =>
+      simp only [hl, hp, ↓reduceIte] at h ⊢
+      have ih := runBody_pending_done { s with pending := c :: s.pending, stack := c :: s.stack } c
+        (List.mem_cons_self ..) catches nested
+      simp only [hl] at ih
+      split
+      · simpa using ih
+      · rename_i hr
+        simp only [hr] at h
+        cases out with
+        | raises => simpa using ih
+        | ok m' => exact absurd rfl (h m')
+  have hp' : c ∉ (runEv s (.call c nested catches out)).1.pending := by rw [hfr.1]; exact hp
+  generalize (runEv s (.call c nested catches out)).1 = s' at hnone hp'
+  unfold runEv
+  simp [hnone, hp', runBody]
+
+/-- A call that returned is answered from the cache for good, whatever happens in between. -/
+theorem nested_success_is_cached (s : Cache) (c : Call) (m : Mod) (h : lookup c s.done = some m) (between : List Ev)
+    (nested : List Ev) (catches : Bool) (out : Outcome) :
+    (runEv (runEvs s between) (.call c nested catches out)).2 = .module m := by
+  have hm : lookup c (runEvs s between).done = some m := by
+    induction between generalizing s with
+    | nil => exact h
+    | cons e r ih => exact ih _ (runEv_done_mono s c m h e)
+  unfold runEv
+  simp [hm]
+
+/-- the scenario of a repair that forgets the mark only at the outermost level: Outer catches Inner(bad)'s failure and returns;
+    Inner(bad) called again fails as before (not "circular"), and works once its body does; a genuine cycle is reported as one -/
+example :
+    let inner := Ev.call 1 [] false .raises
+    let s := runEvs Cache.init [.call 0 [inner] true (.ok 10)]
+    s = ⟨[(0, 10)], [], []⟩ ∧ (runEv s inner).2 = .failed ∧ (runEv s (.call 1 [] false (.ok 11))).2 = .module 11 ∧
+    (runEv s (.call 2 [.call 3 [.call 2 [] false (.ok 5)] false (.ok 6)] true (.ok 7))).2 = .module 7 ∧
+    (runEv s (.call 2 [.call 3 [.call 2 [] false (.ok 5)] false (.ok 6)] false (.ok 7))).2 = .circular := by decide
 end Generators
 
 end Hdl21.Props.C08
